@@ -407,13 +407,14 @@ def rewritten_question(gv, gh, gm, front, p, ln, hs, want, k, contents):
         if res[0] is not True:
             bad = res
         # ... and an entry with the digests of the PREVIOUS content must not verify
-        if k and not bad:
+        if k and not bad and hs:
             old = dict([(h, ref_digest(MANIFEST_TO_LIB.get(h, h.lower()), contents[k - 1])) for h in hs])
             res2 = gv.verify_path(p, gm.ManifestEntryDATA('f', ln, old))
             if res2[0] is not False:
                 bad = ['stale entry accepted', res2]
     elif front == 'update_entry_for_path':
-        ent = gm.ManifestEntryDATA('f', ln, dict.fromkeys(hs, '00'))
+        # (an entry whose recorded size is stale too: the size is refreshed whatever the hash set)
+        ent = gm.ManifestEntryDATA('f', ln + (k % 2) * 3, dict.fromkeys(hs, '00'))
         gv.update_entry_for_path(p, ent, hashes=hs)
         if any(ent.checksums.get(h) != want[h] for h in hs) or ent.size != ln:
             bad = [ent.size, ent.checksums]
@@ -439,7 +440,7 @@ def rewritten_in_place(ctx):
         for i in range(40 if ctx.tier == 'quick' else 400):
             p = os.path.join(td, 'f%d' % i)
             ln = r.choice([1, 7, 300, 65536, 65537])
-            hs = r.choice([['SHA1'], ['MD5', 'SHA256'], ['BLAKE2B', 'SHA512']])
+            hs = r.choice([['SHA1'], ['MD5', 'SHA256'], ['BLAKE2B', 'SHA512'], []])      # (the empty hash set: size-only entries)
             contents = [bytes([65 + k]) * ln for k in range(r.randint(2, 3))]
             st['files'] += 1
             for k, data in enumerate(contents):
